@@ -30,6 +30,28 @@ class Inconclusive(Exception):
     pass
 
 
+class SkipCase(BaseException):
+    """One call of the code under test exceeded the per-call budget (time or memory): a resource limit of the harness,
+    never an observation about the property.  The case is dropped and counted (``skipped_budget``)."""
+
+
+def skippable(fn):
+    """Decorator for per-case check functions ``fn(ctx, ...)``: a SkipCase raised below drops the case."""
+    import functools
+
+    @functools.wraps(fn)
+    def wrapper(ctx, *a, **k):
+        try:
+            return fn(ctx, *a, **k)
+        except SkipCase as exc:
+            ctx.count("skipped_budget")
+            if len(ctx.notes) < 20:
+                ctx.notes.append(f"case dropped, per-call budget exceeded: {exc}")
+            return None
+
+    return wrapper
+
+
 class Ctx:
     MAX_VIOL = 12
 
